@@ -150,11 +150,15 @@ func driveAPI(p *Plan, shard int, w *Writer, t *codec.Table) {
 		}
 	})
 	ref := apiRefOut
+	chunkI, chunkN := chunkOf(p)
 	for si, s := range seeds {
 		if si%p.Shards != shard {
 			continue
 		}
 		for hi, h := range hists {
+			if chunkN > 1 && hi%chunkN != chunkI {
+				continue
+			}
 			for rep := 0; rep < reps; rep++ {
 				sess := ((hi*reps+rep)*4096+si/p.Shards)*p.Shards + shard
 				l, ok := newLive(v, s)
